@@ -17,7 +17,7 @@
    These are decided case by case by the check's oracle and tied to the model by the correspondence.
    The three [_refuted] theorems are the input classes where the faithful model (and the code) break the text. *)
 From Coq Require Import List Ascii Bool NArith Arith Permutation.
-From SF Require Import Base.Str Tags.Model Comb.Model Comb.Proofs Comb.Flat Comb.Cart Comb.Bcast Comb.Nested Comb.NestedCor.
+From SF Require Import Base.Str Tags.Model Comb.Model Comb.Proofs Comb.Flat Comb.Cart Comb.Bcast Comb.Nested Comb.NestedCor Comb.NestedOrd.
 From SF Require Comb.GBcast Comb.GB2.
 Import ListNotations.
 Local Open Scope string_scope. Local Open Scope list_scope.
@@ -151,15 +151,38 @@ Theorem C02_nested_dot_partial : forall S cname Q r (arr : list arv),
 Proof. exact nested_dot_dot_primitive. Qed.
 
 (* NESTED as a bag (inner dot product): no exception, and exactly one flattened combination per complete key of the outer
-   combinator, i.e. per combination of the inner combinator joined with the broadcast tokens of Q.  (Order independence
-   of the nested run is not stated as a theorem: the inner combinations themselves are only equal up to the order of
-   their entries under two arrival orders.) *)
+   combinator, i.e. per combination of the inner combinator joined with the broadcast tokens of Q. *)
 Theorem C02_nested_dot_exactly_one_partial : forall S cname Q r (arr : list arv),
   PH S cname Q r arr ->
   snd (run (tree S cname Q KDot) init_state arr) = None /\
   Permutation (concat (fst (run (tree S cname Q KDot) init_state arr)))
               (GB2.gdone (names cname Q) r (derive S cname (emission S) [] arr)).
 Proof. exact nested_dot_bag. Qed.
+
+(* ... and for the inner cartesian product, under the hypotheses of C02_nested_cartesian_partial *)
+Theorem C02_nested_cartesian_exactly_one_partial : forall S d (Hd : d <> 0) cname Q r (arr : list arv),
+  (forall x, In x arr -> is_scatter S x = false -> In (fst x) Q) ->
+  wfc S d (scattered S arr) ->
+  GBcast.wfb (names cname Q) r cname (derive S cname (fun ai x => map mk_out (emitted S d ai x)) [] arr) ->
+  snd (run (tree S cname Q (KCart d)) init_state arr) = None /\
+  Permutation (concat (fst (run (tree S cname Q (KCart d)) init_state arr)))
+              (GB2.gdone (names cname Q) r (derive S cname (fun ai x => map mk_out (emitted S d ai x)) [] arr)).
+Proof. exact nested_cart_bag. Qed.
+
+(* ORDER INDEPENDENCE, nested (inner dot product): two arrival orders of the same tokens raise nothing and emit equal bags
+   of combinations, provided S and Q are disjoint, r is not empty and the scattered tags are longer than r (true of
+   "r.i").  The lists of elements reaching the outer combinator under the two orders are NOT permutations of each
+   other (an inner combination lists its entries in arrival order); Comb/NestedOrd.v shows that the outer bag is
+   invariant under "permutation, then element-wise equality up to the order of the entries". *)
+Theorem C02_order_independent_nested_partial : forall S cname Q r (arr1 arr2 : list arv),
+  PH S cname Q r arr1 -> Permutation arr1 arr2 ->
+  (forall p, In p S -> ~ In p Q) -> 1 <= String.length r ->
+  (forall x, In x arr1 -> is_scatter S x = true -> String.length r < String.length (atag x)) ->
+  snd (run (tree S cname Q KDot) init_state arr1) = None /\
+  snd (run (tree S cname Q KDot) init_state arr2) = None /\
+  bag_eq (concat (fst (run (tree S cname Q KDot) init_state arr1)))
+         (concat (fst (run (tree S cname Q KDot) init_state arr2))).
+Proof. exact nested_order_independent. Qed.
 
 (* PARTIAL (one tag only): a dot product over the ports [items], one token per port, all tagged g, arriving in ANY
    order: nothing is emitted before the last arrival, which emits exactly one combination holding every port's
@@ -387,6 +410,8 @@ Print Assumptions C02_dot_broadcast_multi_partial.
 Print Assumptions C02_broadcast_exactly_one_partial.
 Print Assumptions C02_order_independent_broadcast_partial.
 Print Assumptions C02_nested_dot_exactly_one_partial.
+Print Assumptions C02_nested_cartesian_exactly_one_partial.
+Print Assumptions C02_order_independent_nested_partial.
 Print Assumptions C02_nested_partial.
 Print Assumptions C02_nested_cartesian_partial.
 Print Assumptions C02_nested_dot_partial.
